@@ -562,6 +562,26 @@ pub proof fn lemma_sqrt_pos(x: real) requires x > 0real ensures r_sqrt(x) > 0rea
     assert(r != 0real) by(nonlinear_arith) requires r * r == x, x > 0real;
 }
 
+// TrendFlex / ReFlex output stage: ms0 = 0.04 d^2 + 0.96 ms with ms >= 0 dominates d^2 / 25, so |d / sqrt(ms0)| <= 5 for every input history
+pub proof fn lemma_flex_out_bound(d: real, ms: real)
+    requires ms >= 0real
+    ensures ({ let ms0 = (4real / 100real) * r_powi(d, 2) + (96real / 100real) * ms;
+               ms0 >= 0real && (ms0 > 0real ==> -5real <= rdiv(d, r_sqrt(ms0)) <= 5real) })
+{
+    ax_powi2(d); lemma_sq_nonneg(d);
+    let ms0 = (4real / 100real) * r_powi(d, 2) + (96real / 100real) * ms;
+    if ms0 > 0real {
+        lemma_sqrt_pos(ms0); ax_sqrt(ms0);
+        let s = r_sqrt(ms0); let q = rdiv(d, s); lemma_rdiv_mul(d, s);
+        assert(25real * (s * s) >= d * d);
+        assert((5real * s) * (5real * s) == 25real * (s * s)) by(nonlinear_arith);
+        assert(d <= 5real * s) by(nonlinear_arith) requires (5real * s) * (5real * s) >= d * d, s > 0real;
+        assert(d >= -(5real * s)) by(nonlinear_arith) requires (5real * s) * (5real * s) >= d * d, s > 0real;
+        assert(q <= 5real) by(nonlinear_arith) requires q * s == d, d <= 5real * s, s > 0real;
+        assert(q >= -5real) by(nonlinear_arith) requires q * s == d, d >= -(5real * s), s > 0real;
+    }
+}
+
 // ---------- Kendall pair sums (NoiseEliminationTechnology) ----------
 // xs[c] (c >= 1) is the value c-1 steps back from the newest (xs[1] newest); xs[0] is unused
 pub open spec fn sgn3(d: real) -> real { if d > 0real { 1real } else if d < 0real { -1real } else { 0real } }
